@@ -774,6 +774,34 @@ pub fn handle(line: &str) -> Result<String, String> {
         ("term", 3) => term_cmd(a[0].as_atom()?, &a[1], a[2].as_usize()? != 0),
         ("run", 4) => run_cmd(a[0].as_atom()?, &a[1], &a[2], a[3].as_usize()? != 0, false),
         ("runp", 4) => run_cmd(a[0].as_atom()?, &a[1], &a[2], a[3].as_usize()? != 0, true),
+        ("satpaths", 3) => {
+            // C05: every public way of attaching witness values answers alike — (satpaths text args wit) ->
+            // (satisfy ok|err|panic) (env-none ..) (env-some ..) (new ..)
+            use std::panic::{catch_unwind, AssertUnwindSafe};
+            let text = a[0].as_atom()?;
+            let template = match TemplateProgram::new(text) {
+                Ok(t) => t,
+                Err(e) => return Ok(format!("(rej {})", quote(&first_line(&e)))),
+            };
+            let compiled = match template.instantiate(Arguments::from(name_values(&a[1])?), false) {
+                Ok(c) => c,
+                Err(e) => return Ok(format!("(cerr {})", quote(&first_line(&e)))),
+            };
+            let show = |r: std::thread::Result<Result<(), String>>| match r {
+                Ok(Ok(())) => "ok".to_string(),
+                Ok(Err(e)) => format!("(err {})", quote(&first_line(&e))),
+                Err(_) => "panic".to_string(),
+            };
+            let wv = || -> Result<WitnessValues, String> { Ok(WitnessValues::from(name_values(&a[2])?)) };
+            let (w1, w2, w3, w4) = (wv()?, wv()?, wv()?, wv()?);
+            let args4 = Arguments::from(name_values(&a[1])?);
+            let r1 = show(catch_unwind(AssertUnwindSafe(|| compiled.satisfy(w1).map(|_| ()))));
+            let r2 = show(catch_unwind(AssertUnwindSafe(|| compiled.satisfy_with_env(w2, None).map(|_| ()))));
+            let env = simfony::dummy_env::dummy();
+            let r3 = show(catch_unwind(AssertUnwindSafe(|| compiled.satisfy_with_env(w3, Some(&env)).map(|_| ()))));
+            let r4 = show(catch_unwind(AssertUnwindSafe(|| simfony::SatisfiedProgram::new(text, args4, w4, false).map(|_| ()))));
+            Ok(format!("(satisfy {}) (env-none {}) (env-some {}) (new {})", r1, r2, r3, r4))
+        }
         ("runpe", 5) => {
             // (runpe text args wit dbg (locktime sequence fee) | ((lt seq fee) (lt seq fee) ...)): unpruned and pruned under
             // non-default environments; several environments are applied one after the other to ONE CompiledProgram
